@@ -112,6 +112,25 @@ CLAIMS = {
         note="Trusted: symdf leaf models. Bounds: <=5 rows/input, <=3 partitions, DAG shapes listed in families/f14.py.",
         design="§4 C14",
     ),
+    "C15": dict(
+        category="model_checking", engine="K",
+        technique="CrossHair / exhaustive history enumeration on the real memoising functions and the real LRU with an injective stub for the cached computation; symbolic cache environment for set_index divisions",
+        text="Decidable part only: cache-key completeness and eviction safety. _get_divisions, _get_mem_usages and the LRU class run for real over every short history of calls "
+             "(arguments / keys, capacities 1..3): each call returns the value of its own key and the cache never exceeds its capacity; the LRU agrees with a reference "
+             "least-recently-looked-up model; a set_index result reports the same divisions whatever happened to the divisions cache in between (symbolic eviction count).",
+        note="Outside: Expr._instances weak table, garbage collection, injected task failures, parquet plan/statistics caches and dataset rewrites (need real process histories). "
+             "Histories <= 3-5 operations; key histories enumerated (symbolic dict keys are beyond CrossHair).",
+        design="§4 C15",
+    ),
+    "C16": dict(
+        category="model_checking", engine="K+P",
+        technique="CrossHair on the real metadata readers of module-level caches with the cache content as symbolic environment; clean-environment pickle round trip of every plan form as by-product",
+        text="Decidable part only: metadata must not depend on process-global state. The expression is re-constructed from (type, operands) with the caches emptied or churned "
+             "(symbolic) and must report the same divisions without raising. By-product: logical / optimised / lowered forms of a program family (incl. quantile-planned set_index "
+             "and sort_values) are pickled, all module caches and the singleton table are emptied, and the unpickled collection agrees in name, schema, divisions and result.",
+        note="Outside: pickle's byte-level behaviour, _BackendData / FragmentWrapper reduction (C code), a genuinely separate process.",
+        design="§4 C16",
+    ),
     "C17": dict(
         category="translation_validation", engine="P",
         technique="symbolic execution of cut vs uncut real plans (real postpersist rebuild over symbolically computed partitions, real to_delayed/from_delayed and legacy round trips); z3 decides result equality",
@@ -119,6 +138,16 @@ CLAIMS = {
              "the re-imported collection is proved to compute the result of the uncut query for all table contents; schema and divisions are compared concretely.",
         note="Trusted: symdf leaf models; the scheduler run inside persist() is replaced by the symbolic executor; distributed outside. Bounds: <=5 rows, <=3 partitions.",
         design="§4 C17",
+    ),
+    "C18": dict(
+        category="model_checking", engine="SMT+K",
+        technique="z3 equivalence of the pandas predicate and Arrow's null-aware DNF meaning of the real _DNF output over symbolic cells and null flags; CrossHair / sweeps on statistics and bucket bookkeeping",
+        text="Decidable part only. (1) Every And/Or tree over col-op-const atoms (<=2 leaves quick, 3 thorough), combined with user filter lists, goes through the real "
+             "_DNF.extract_pq_filters/normalize/combine/to_list_tuple; z3 proves the pushed filter keeps exactly the rows of the pandas predicate, nulls included. "
+             "(2) _aggregate_statistics_to_file with symbolic row-group statistics (lengths = sum of row-group rows, min/max aggregation), _divisions_from_statistics over all small "
+             "(min,max) configurations incl. overlapping files, FusedIO bucket/divisions/task bookkeeping with symbolic divisions.",
+        note="The reader (Arrow C++), write/read round trip, filesystem differences and the overwrite guard need files: outside. Counterexample replays do use real parquet files.",
+        design="§4 C18",
     ),
     "C19": dict(
         category="model_checking", engine="P+K",
